@@ -657,6 +657,9 @@ example : ∀ w, Codec.Val.tag (.i64 7) = Codec.Val.tag w → Codec.valueIs (.nu
 -- a test: `checkEntries` goes through `Array.qsort`, which the kernel does not unfold)
 #guard (match Codec.checkEntries "A" [(1, 10)] [(1, 10)] 5 0 [.arr [.num "7", .num "1"]] [(.i64 7, 1)] with | .ok () => true | _ => false)
 #guard (match Codec.checkEntries "A" [(1, 10)] [(1, 10)] 5 0 [] [(.i64 7, 1)] with | .ok () => false | _ => true)
+-- 1<<60 as text, end to end
+example : Codec.valueIs (.num (String.ofList "1152921504606846976".toList)) (.f64 ((4877398396442247168 : Nat) : Int)) = true :=
+  C04_schema_exact_int_text_accepted _ 4877398396442247168 8 (by decide) (by decide) (by decide) (by decide) (by decide)
 -- -0.1
 example : Codec.decIsKey ⟨true, 1, -1⟩ (-4591870180066957722) = true := by decide
 
